@@ -354,7 +354,7 @@ PROPS = {
     'C01': dict(
         theorems=[('DeriveExModel.Props.Tables', ['DX.isMatch_table_model', 'DX.isMatch_table_doc', 'DX.isMatch_table_complete']), ('DeriveExModel.Props.DocTables', ['DX.doc_attr_trait_table', 'DX.doc_attr_trait_complete', 'DX.doc_affects_table']), (CMP + 'C01', ['DX.eq_follows_doc', 'DX.partial_cmp_follows_doc', 'DX.cmp_follows_doc',
                                  'DX.body_independent_of_entry'])],
-        l1=[('cmp1', 'all', 'all'), ('cmp1all', 20000, 'all'), ('cmpN', 4000, 200000), ('cmpWild', 1000, 50000)],
+        l1=[('cmp1', 'all', 'all'), ('cmp1all', 20000, 'all'), ('cmpN', 4000, 200000), ('cmpWild', 1000, 50000), ('ext', 24000, 640000)],
         labels=r':(PartialEq|PartialOrd|Ord)$',
         extra=extra_cmp_l2('cmpRun', ('eq', 'pcmp', 'cmp'), 1200, 24000),
         explanation='theorems: for every item, accepted attribute placement, environment and value pair the generated ==/partial_cmp/cmp equal the documented lexicographic rule; L1: the exhaustive 3136-combination single-field matrix x 4 shapes x 2 entry points (x 31 trait sets in the thorough tier) plus random multi-field items, compared token for token',
@@ -366,7 +366,7 @@ PROPS = {
                                  'DX.cmp_trans_fields', 'DX.variant_order_lawful']),
                   (CMP + 'C02Order', ['DX.sumCmp_lawful', 'DX.cmp_lawful', 'DX.cmp_le_trans', 'DX.eq_trans', 'DX.eq_trans_item']),
                   (CMP + 'C05', ['DX.trait_error_iff_misuse'])],
-        l1=[('cmp1', 'all', 'all'), ('cmp1all', 20000, 'all'), ('cmpN', 2000, 100000)],
+        l1=[('cmp1', 'all', 'all'), ('cmp1all', 20000, 'all'), ('cmpN', 2000, 100000), ('ext', 24000, 640000)],
         labels=r':(PartialEq|PartialOrd|Ord|Eq|Hash)$',
         extra=extra_cmp_l2('lawRun', ('eq', 'pcmp', 'cmp', 'hash'), 1200, 24000, laws=True),
         explanation='theorems: for every item and every coherent environment (one key per field, lawful field impls) the accepted impls agree: == iff partial_cmp==Some(Equal) iff cmp==Equal, partial_cmp==Some(cmp), == implies equal hasher feeds, cmp flips under swap, == is an equivalence; refusal of everything else is C05.trait_error_iff_misuse. cmp is proved a total order on all values of the item (cmp_lawful: a lexicographic product of lawful comparisons is lawful on one variant, the order of variant positions is lawful, and tag-then-payload of lawful comparisons is lawful), == an equivalence on all values (eq_trans_item). L2: compiled programs with one consistent key, all pairs and triples of values, laws checked on the observed results without any model',
@@ -386,7 +386,7 @@ PROPS = {
                   (CMP + 'C04Enum', ['DX.debug_enum_where', 'DX.default_enum_where', 'DX.default_enum_where_value', 'DX.deref_where']),
                   ('DeriveExModel.Lemmas.Bounds', ['DX.FieldE.pushBoundsTo_contrib', 'DX.walk_true']),
                   (CMP + 'C13Ren', ['DX.mentions_paramSet_rename', 'DX.whereClause_rename'])],
-        l1=[('bounds', 6000, 200000), ('all', 3000, 100000), ('ops', 2000, 50000), ('cmpN', 2000, 50000)],
+        l1=[('bounds', 6000, 200000), ('all', 3000, 100000), ('ops', 2000, 50000), ('cmpN', 2000, 50000), ('ext', 24000, 640000)],
         labels=r'^e\d+:',
         kinds=('tokens', 'count', 'panic', 'nondet', 'parse'),
         l1_is_concrete=('tokens',),
@@ -405,7 +405,7 @@ PROPS = {
                   ('DeriveExModel.Lemmas.Bounds', ['DX.walk_true', 'DX.walk_append', 'DX.HAttrs.pushBoundsToRaw_walk',
                                                    'DX.Entry.pushBoundsToWith_walk', 'DX.CmpHs.pushBounds_walk',
                                                    'DX.FieldE.pushBoundsTo_contrib'])],
-        l1=[('bounds', 8000, 300000), ('all', 3000, 100000)],
+        l1=[('bounds', 8000, 300000), ('all', 3000, 100000), ('ext', 24000, 640000)],
         labels=r'^e\d+:',
         kinds=('tokens', 'count', 'panic', 'nondet', 'parse'),
         l1_is_concrete=('tokens',),
@@ -416,7 +416,7 @@ PROPS = {
     'C05': dict(
         theorems=[('DeriveExModel.Props.DocTables', ['DX.doc_arg_place_table', 'DX.doc_arg_place_complete']), ('DeriveExModel.Props.Tables', ['DX.isMatch_table_model', 'DX.isMatch_table_doc', 'DX.isMatch_table_complete']), ('DeriveExModel.Props.DocTables', ['DX.doc_attr_trait_table', 'DX.doc_attr_trait_complete', 'DX.doc_affects_table']), (CMP + 'C05', ['DX.field_error_iff_misuse', 'DX.trait_error_iff_misuse', 'DX.valid_use_accepted',
                                  'DX.misplaced_iff', 'DX.struct_entries_isolated'])],
-        l1=[('cmp1', 'all', 'all'), ('cmp1all', 20000, 'all'), ('cmpWild', 4000, 100000), ('cmpN', 2000, 50000)],
+        l1=[('cmp1', 'all', 'all'), ('cmp1all', 20000, 'all'), ('cmpWild', 4000, 100000), ('cmpN', 2000, 50000), ('ext', 24000, 640000)],
         labels=r':(PartialEq|PartialOrd|Ord|Eq|Hash)$|^err$',
         kinds=('class', 'count', 'panic', 'nondet', 'parse', 'errtrait'),
         l1_is_concrete=('class', 'errtrait'),
@@ -426,14 +426,14 @@ PROPS = {
     'C06': dict(
         explanation='theorems: the derived hash feeds exactly the documented effective inputs of the non-ignored fields in order (feed_follows_doc), equal inputs give equal feeds for every hasher, prefix-free codes make the feed injective. L1 exhaustive matrix; L2 `cmpRun` with a recording hasher; directed probe from an L1 disagreement.',
         theorems=[(CMP + 'C06', ['DX.feed_follows_doc', 'DX.equal_inputs_equal_feed', 'DX.feed_injective'])],
-        l1=[('cmp1', 'all', 'all'), ('cmpN', 4000, 200000)],
+        l1=[('cmp1', 'all', 'all'), ('cmpN', 4000, 200000), ('ext', 24000, 640000)],
         labels=r':Hash$',
         extra=extra_cmp_l2('cmpRun', ('hash', 'hslice'), 1200, 24000),
     ),
     'C17': dict(
         explanation="theorem: the hidden Eq assertion covers exactly the fields that take part in equality, or their key value; ignored and by-compared fields are exempt (eq_assert_exact). L1; L2: rustc's accept / refuse verdict against that rule, also with Hash derived and #[hash(ignore)].",
         theorems=[(CMP + 'C17', ['DX.eq_assert_exact', 'DX.eq_body_tokens', 'DX.eq_struct_tokens', 'DX.eq_enum_tokens', 'DX.eqChecker_shape', 'DX.op_of_ok'])],
-        l1=[('cmp1', 'all', 'all'), ('cmpN', 4000, 200000)],
+        l1=[('cmp1', 'all', 'all'), ('cmpN', 4000, 200000), ('ext', 24000, 640000)],
         extra=extra_verdicts(l2gen.gen_c17_case, 480, 6000),
         labels=r':Eq(#1)?$',
     ),
@@ -444,7 +444,7 @@ PROPS.update({
         explanation='theorems: clone is one Clone::clone per field in order into the same variant; clone_from is one clone_from per field for the same variant / struct and a clone of the source otherwise (clone_from_spec). L1; L2 `cloneRun`: expected values and call logs computed in Lean from Sem (Copy alongside, split lists, bound(..) on fields and variants, generic field types), plus call-recording programs and std twins.',
         theorems=[(CMP + 'Witness', ['DX.fromFields_indexDistinct', 'DX.fromVariants_indexDistinct', 'DX.clone_enum_trace_pipeline']), (CMP + 'C07', ['DX.clone_fieldwise', 'DX.clone_struct_fields', 'DX.clone_enum_fields',
                                  'DX.clone_from_same_variant', 'DX.clone_from_other_variant', 'DX.clone_from_spec'])],
-        l1=[('basic', 4000, 150000), ('all', 3000, 100000)],
+        l1=[('basic', 4000, 150000), ('all', 3000, 100000), ('ext', 24000, 640000)],
         extra=extras(extra_cmp_l2('cloneRun', None, 480, 9600), extra_programs(l2gen.gen_c07_program, 320, 6400, per=40, what='clone / clone_from differ from the documented field-wise behaviour (value, calls made on the fields, or the source changed)'), extra_twins(360, 6000)),
         labels=r':Clone$',
     ),
@@ -452,7 +452,7 @@ PROPS.update({
         explanation='theorems: the eight reference forms are emitted in the documented order and each acts field-wise with the left operand on the left, one call per field (bin/assign/un_fieldwise, forms_agree). L1; L2 `opsRun` from Sem over a free monoid that records operator, operand order and reference form (generic fields, field-level bound(..)).',
         theorems=[(CMP + 'Witness', ['DX.fromFields_indexDistinct', 'DX.bin_fieldwise_pipeline']), ('DeriveExModel.Props.Tables', ['DX.trait_table_model', 'DX.trait_table_complete']), (CMP + 'C08', ['DX.forms_emitted', 'DX.ops_one_impl_per_form', 'DX.bin_fieldwise', 'DX.assign_fieldwise',
                                  'DX.un_fieldwise', 'DX.ops_fields', 'DX.forms_agree'])],
-        l1=[('ops', 4000, 150000), ('all', 3000, 100000)],
+        l1=[('ops', 4000, 150000), ('all', 3000, 100000), ('ext', 24000, 640000)],
         extra=extras(extra_cmp_l2('opsRun', None, 480, 9600), extra_programs(l2gen.gen_c08_program, 480, 9600, per=60, what='an operator derived from the struct definition does not act field-wise (value, operand order, reference form, call count or a borrowed operand changed)')),
         labels=r':(Add|BitAnd|BitOr|BitXor|Div|Mul|Rem|Shl|Shr|Sub|Neg|Not)(Assign)?(#\d)?$',
     ),
@@ -462,7 +462,7 @@ PROPS.update({
                                  'DX.op_from_assign', 'DX.emitted_binary_forms', 'DX.emitted_forms', 'DX.carries_over']),
                   (CMP + 'C09Self', ['DX.expandSelf_id_of_no_self', 'DX.output_self_expanded', 'DX.output_has_no_self',
                                      'DX.output_verbatim', 'DX.rhs_self_expanded'])],
-        l1=[('impl', 6000, 200000)],
+        l1=[('impl', 6000, 200000), ('ext', 24000, 640000)],
         extra=extras(extra_cmp_l2('fwdRun', None, 600, 12000), extra_programs(l2gen.gen_c09_program, 640, 12800, per=80, what='an operator impl derived from the user impl does not forward faithfully (value, operand order, number of calls or clones)')),
         labels=r'^impl|^err$',
     ),
@@ -470,7 +470,7 @@ PROPS.update({
         explanation='theorems: without a transparent field the Formatter builder calls are those of the standard derive on the type with its ignored fields deleted; one transparent field delegates to it with the same formatter; two are rejected. L1; L2 `debugRun` (text computed in Lean from the trace under four format specs) and std twins under ten format specs.',
         theorems=[(CMP + 'C10', ['DX.debug_trace_is_std', 'DX.transparent_delegates', 'DX.two_transparent_rejected',
                                  'DX.debug_struct_trace'])],
-        l1=[('basic', 4000, 150000), ('all', 3000, 100000)],
+        l1=[('basic', 4000, 150000), ('all', 3000, 100000), ('ext', 24000, 640000)],
         extra=extras(extra_cmp_l2('fwdRun', None, 600, 12000), extra_cmp_l2('debugRun', None, 480, 9600), extra_programs(l2gen.gen_c10_program, 600, 12000, what='Debug output differs from the standard derive on the type with its ignored fields deleted / from the transparent field alone'), extra_twins(360, 6000)),
         labels=r':Debug$',
     ),
@@ -478,7 +478,7 @@ PROPS.update({
         explanation="theorems: default() is the type-level value if given, else the struct / marked variant / only variant with every field at its documented value, Into exactly for string literals and paths; enums with no or several marked variants and a value on a variant's #[default(..)] are rejected. L1; L2 `defaultRun` (text from the structured value), expected Debug text, rejections.",
         theorems=[(CMP + 'C11', ['DX.defaultCtorArgs_vals', 'DX.into_iff_strlit_or_path', 'DX.default_struct_follows_doc',
                                  'DX.default_enum_rejections', 'DX.default_enum_follows_doc'])],
-        l1=[('basic', 4000, 150000), ('all', 3000, 100000)],
+        l1=[('basic', 4000, 150000), ('all', 3000, 100000), ('ext', 24000, 640000)],
         extra=extras(extra_cmp_l2('defaultRun', None, 600, 12000), extra_programs(l2gen.gen_c11_program, 800, 16000, per=200, what='default() does not return the documented value'), extra_verdicts(l2gen.gen_c11_reject_case, 96, 1200), extra_twins(360, 6000)),
         labels=r':Default$',
     ),
@@ -489,7 +489,7 @@ PROPS.update({
                                  'DX.plain_default_is_std', 'DX.plain_item_accepted', 'DX.plain_item_eq',
                                  'DX.plain_item_partial_cmp', 'DX.plain_item_cmp', 'DX.plain_item_hash']),
                   (CMP + 'C07', ['DX.clone_fieldwise', 'DX.clone_from_spec'])],
-        l1=[('basic', 3000, 100000), ('cmpN', 2000, 50000)],
+        l1=[('basic', 3000, 100000), ('cmpN', 2000, 50000), ('ext', 24000, 640000)],
         labels=r':(Clone|Debug|Default|PartialEq|Eq|PartialOrd|Ord|Hash)(#1)?$',
         kinds=('panic', 'nondet', 'parse', 'count', 'class'),
         extra=extra_twins(1200, 24000),
@@ -500,7 +500,7 @@ PROPS.update({
         theorems=[(CMP + 'C13Hyg', ['DX.attr_output_hygienic', 'DX.derive_output_hygienic', 'DX.hyg_makeIdent', 'DX.absPath_strs', 'DX.kind_paths_rooted']), ('DeriveExModel.Props.QuoteIdents', ['DX.quote_table_free_ok', 'DX.quote_table_abs_roots_core', 'DX.quote_table_no_relative_paths', 'DX.quote_table_singles_ok', 'DX.quote_table_binder_prefixes', 'DX.quote_table_formats_known', 'DX.quote_table_nonempty']),  (CMP + 'C13Ren', ['DX.mentions_rename', 'DX.mentions_paramSet_rename', 'DX.paramSet_rename', 'DX.isSelf_rename', 'DX.expandSelf_rename', 'DX.mayBeUnsized_rename', 'DX.whereClause_rename']), (CMP + 'C20', ['DX.introduced_names_reserved', 'DX.makeIdent_shape', 'DX.helper_free_of_field_type',
                                  'DX.expandSelf_no_self']),
                   ('DeriveExModel.Props.Tables', ['DX.trait_table_model'])],
-        l1=[('all', 3000, 60000), ('cmpN', 2000, 40000), ('impl', 1000, 20000)],
+        l1=[('all', 3000, 60000), ('cmpN', 2000, 40000), ('impl', 1000, 20000), ('ext', 24000, 640000)],
         labels=r'^e\d+:|^impl',
         # the hygiene theorem speaks about every token of every template: any token disagreement breaks its tie to the code
         kinds=('panic', 'nondet', 'parse', 'tokens', 'tokens-body', 'count'),
@@ -514,7 +514,7 @@ PROPS.update({
                                  'DX.thisTy_no_self', 'DX.eq_conjuncts_parenthesised', 'DX.empty_match_by_value',
                                  'DX.introduced_names_reserved', 'DX.bad_key_refused']),
                   (CMP + 'C05', ['DX.trait_error_iff_misuse', 'DX.valid_use_accepted'])],
-        l1=[('all', 3000, 60000), ('cmpN', 2000, 40000), ('impl', 1000, 20000)],
+        l1=[('all', 3000, 60000), ('cmpN', 2000, 40000), ('impl', 1000, 20000), ('ext', 24000, 640000)],
         labels=r'^e\d+:|^impl',
         # the hygiene theorem speaks about every token of every template: any token disagreement breaks its tie to the code
         kinds=('panic', 'nondet', 'parse', 'tokens', 'tokens-body', 'count'),
@@ -528,7 +528,7 @@ PROPS.update({
                                  'DX.reemit_on_arg_error_struct', 'DX.reemit_on_arg_error_enum', 'DX.reemit_impl',
                                  'DX.reemit_other', 'DX.item_always_emitted', 'DX.foreign_kept', 'DX.strip_is_sublist',
                                  'DX.underived_helper_kept', 'DX.fromRoot_foreign', 'DX.fromAttrs_foreign'])],
-        l1=[('strip', 5000, 200000), ('wild', 2000, 50000), ('impl', 1500, 30000), ('other', 500, 5000), ('cmp1all', 10000, 'all')],
+        l1=[('strip', 5000, 200000), ('wild', 2000, 50000), ('impl', 1500, 30000), ('other', 500, 5000), ('cmp1all', 10000, 'all'), ('ext', 24000, 640000)],
         labels=r'^item$',
         l1_is_concrete=('tokens', 'class'),
         l1_concrete_text='the re-emitted item differs from the input minus the documented derive_ex-owned attributes (the model, proved equal to docStrip*)',
@@ -541,7 +541,7 @@ PROPS.update({
                                  'DX.entry_equiv_segments_enum', 'DX.split_equiv', 'DX.order_preserved', 'DX.fromAttrs_congr']),
                   (CMP + 'C15Co', ['DX.struct_any_coderived_set', 'DX.enum_any_coderived_set', 'DX.struct_entry_codrived_independent',
                                    'DX.enum_entry_codrived_independent', 'DX.structCore_entries', 'DX.agreeOn_of_noneOnlyForOthers'])],
-        l1=[('all', 4000, 150000), ('cmp1all', 20000, 'all'), ('bounds', 2000, 50000)],
+        l1=[('all', 4000, 150000), ('cmp1all', 20000, 'all'), ('bounds', 2000, 50000), ('ext', 24000, 640000)],
         labels=r'^e\d+:|^err$',
         extra=extra_meta('c15', 3000, 60000),
     ),
@@ -553,7 +553,7 @@ PROPS.update({
                                  'DX.attr_is_item_then_core_struct', 'DX.attr_is_item_then_core_enum']),
                   (CMP + 'C16Bal', ['DX.attr_output_balanced', 'DX.derive_output_balanced', 'DX.bal_iff', 'DX.scan_append',
                                     'DX.starts_genImpl', 'DX.starts_fwd', 'DX.entry_items_start_like_items'])],
-        l1=[('wild', 5000, 200000), ('strip', 2000, 50000), ('impl', 2000, 50000), ('cmpWild', 2000, 50000), ('other', 500, 5000)],
+        l1=[('wild', 5000, 200000), ('strip', 2000, 50000), ('impl', 2000, 50000), ('cmpWild', 2000, 50000), ('other', 500, 5000), ('ext', 24000, 640000)],
         labels=r'.',
         kinds=('panic', 'nondet', 'parse', 'roundtrip'),
         extra=extras(extra_fuzz(160000, 8000000), extra_rustc(l2gen.gen_seq_case, 160, 4000)),
@@ -562,7 +562,7 @@ PROPS.update({
     'C18': dict(
         explanation="theorems: accepted exactly for single-field structs; the returned reference is to the place self.<field> and Target is the field's declared type (arity_rejected, deref_is_field_place). L1; L2: address and type identity, write-through, rejections, unsized targets.",
         theorems=[(CMP + 'C18', ['DX.arity_rejected', 'DX.deref_is_field_place', 'DX.deref_sig_free_of_field_type', 'DX.deref_returns_trait_target'])],
-        l1=[('ops', 4000, 150000)],
+        l1=[('ops', 4000, 150000), ('ext', 24000, 640000)],
         extra=extras(extra_programs(l2gen.gen_c18_program, 240, 4800, what='Deref / DerefMut do not target the single field itself'), extra_verdicts(l2gen.gen_c18_reject_case, 96, 1000)),
         labels=r':Deref(Mut)?$',
     ),
@@ -570,7 +570,7 @@ PROPS.update({
         explanation='theorems: the payload of a dumped entry is token for token the concatenation of what the entry would otherwise have generated; no builder, and not the set of stripped attributes, looks at a dump flag (dump_payload, build_ignores_dump_*, kinds_ignore_dump, dump_impl). Metamorphic: the same request with and without dump.',
         theorems=[(CMP + 'C19', ['DX.build_ignores_dump_struct', 'DX.build_ignores_dump_enum', 'DX.dump_payload',
                                  'DX.dump_of_error', 'DX.kinds_ignore_dump', 'DX.dump_impl', 'DX.fwd_ignores_dump'])],
-        l1=[('dump', 5000, 150000), ('impl', 2000, 40000)],
+        l1=[('dump', 5000, 150000), ('impl', 2000, 40000), ('ext', 24000, 640000)],
         labels=r'.',
         l1_is_concrete=('tokens', 'class'),
         extra=extra_meta('c19', 3000, 40000),
@@ -798,6 +798,20 @@ def replay(prop, path):
         print('replay: this record carries no executable input; re-run the check itself')
         return 1
     fam, *rest = cid.split('/')
+    if fam in ('ext', 'mut'):
+        # an input from outside the model's generators: serialise it again, run model and implementation on it
+        b = vlib.Build()
+        b.harness()
+        vlib.regenerate_tables()
+        b.lean()
+        res = vlib.run_ext_single(prop + '-replay', d.get('entry', 'attr'), d.get('args', ''), d.get('item', ''))
+        bad = [x for x in (res or []) if re.search(PROPS[prop]['labels'], x.get('label', '')) or x.get('label') == '*']
+        if bad:
+            print(json.dumps(bad, indent=1)[:6000])
+            print(f'VIOLATION property={prop} replay={path}')
+            return 1
+        print('replay: no disagreement on this input any more' if res is not None else 'replay: the input is outside the model\'s fragment')
+        return 0
     seed, idx = (rest[-2], rest[-1]) if len(rest) >= 2 else ('0', rest[0])
     b = vlib.Build()
     b.harness()
